@@ -11,6 +11,7 @@ import (
 	"github.com/nspcc-dev/neo-go/pkg/core/storage"
 	"github.com/nspcc-dev/neo-go/pkg/core/storage/dbconfig"
 	"go.uber.org/zap"
+	"go.uber.org/zap/zapcore"
 )
 
 func init() {
@@ -135,7 +136,20 @@ type Node struct {
 	running bool
 }
 
-var nopLog = zap.NewNop()
+// nopLog discards everything below Fatal. A Fatal entry (zap would os.Exit(1) silently even on a no-op logger) is turned
+// into a Go panic carrying the message and its fields: in the goroutine of a check it is caught and reported as a
+// failure of the case, in a goroutine of the node it ends the process with a trace the driver files as a crash.
+var nopLog = zap.New(zapcore.NewNopCore(), zap.WithFatalHook(fatalPanic{}))
+
+type fatalPanic struct{}
+
+func (fatalPanic) OnWrite(ce *zapcore.CheckedEntry, fields []zapcore.Field) {
+	enc := zapcore.NewMapObjectEncoder()
+	for _, f := range fields {
+		f.AddTo(enc)
+	}
+	panic(fmt.Sprintf("the node logged a FATAL error (it would exit): %s %v", ce.Message, enc.Fields))
+}
 
 func openBackend(kind, dir string) (storage.Store, error) {
 	switch kind {
